@@ -109,7 +109,7 @@ def run(ctx):
         elif m[0] == "OK":
             ctx.violation(dict(source=name, dict_hex=db.hex()[:40000], frame_hex=f.hex()[:40000]), what="R decodes a dictionary frame to other bytes than the compressor's input")
     ctx.notes["dict_frames_R_accepts"] = len(dvalid)
-    DPATHS = ["usingDict", "ddict", "ddictwarm", "ddictref", "loaddict", "multiddict", "stream:5:3", "continue"]
+    DPATHS = ["usingDict", "ddict", "ddictwarm", "ddictref", "loaddict", "multiddict", "multiddict2", "stream:5:3", "continue"]
     # R first: only frames R accepts are in the quantifier
     mres = cd0.model([("f%d" % i, "nostrict", None, f) for i, (name, f, x) in enumerate(frames)])
     valid = []
